@@ -172,6 +172,13 @@ def generate(eng, c):
                     # objects cannot be list elements in the logic: the contract names the projection of a
                     # yielded object (a tuple of its fields) that the `yielded` ghost records
                     val = callcontract.clause_value(ex, st1, c, c.yield_view, [val])
+                # lemma instances the contract names for yield points (`_y` the value, `yielded` the list so far);
+                # each lemma is proved in the same run
+                for h in getattr(c, "yield_hints", None) or []:
+                    try:
+                        st1.assume(callcontract.clause(ex, st1, c, h, {"_y": val, "yielded": cur}))
+                    except Unsupported:
+                        pass
                 st1.frames[0]["__yielded__"] = V("list", z3.Concat(cur.t, z3.Unit(box(val))))
                 return [(st1, (NEXT, None))]
             fr.yield_handler = collect
